@@ -588,6 +588,9 @@ def _with_env(body):
         if body is body_map and data.get("exc") == "timeout" and data.get("cfg", {}).get("mode") != "seq":
             with _net_fault(kind):
                 out = _in_killable_child(body, data, 45.0)
+                if any(f.bucket.endswith("-hang") and "killed" in f.detail for f in out.failures):
+                    # the external budget expired: once more with three times the budget before this counts
+                    out = _in_killable_child(body, data, 135.0)
             out.labels.append("run-in-a-killable-child")
         else:
             with _net_fault(kind):
